@@ -339,7 +339,18 @@ func (f *Fix) ImportedCopyOpt(withProposer bool) (f2 *Fix, exp1, exp2 map[string
 		return nil, exp1, nil, merr
 	}
 	a2, _ := apptesting.SetupTestingApp()
-	f2 = &Fix{T: f.T, App: a2, Height: f.Height, Time: f.Time}
+	// the imported chain starts at the height and time of the exporting CONTEXT (some package harnesses
+	// advance f.Ctx directly without touching f.Height / f.Time: the copy used to start in their past,
+	// so time-dependent queries — expiry of Dym-Names, gauge and stream classification — were compared
+	// at two different times)
+	ih, it := f.Height, f.Time
+	if bh := f.Ctx.BlockHeight(); bh > 0 {
+		ih = bh
+	}
+	if bt := f.Ctx.BlockTime(); !bt.IsZero() {
+		it = bt
+	}
+	f2 = &Fix{T: f.T, App: a2, Height: ih, Time: it}
 	f2.setCtx()
 	if withProposer {
 		if vals, verr := f.App.StakingKeeper.GetAllValidators(f.Ctx); verr == nil && len(vals) > 0 {
@@ -349,7 +360,7 @@ func (f *Fix) ImportedCopyOpt(withProposer bool) (f2 *Fix, exp1, exp2 map[string
 			f2.Ctx = f2.Ctx.WithBlockHeader(h)
 		}
 	}
-	if _, err = a2.InitChainer(f2.Ctx, &abci.RequestInitChain{ChainId: apptesting.TestChainID, AppStateBytes: bz, Time: f.Time, InitialHeight: f.Height}); err != nil {
+	if _, err = a2.InitChainer(f2.Ctx, &abci.RequestInitChain{ChainId: apptesting.TestChainID, AppStateBytes: bz, Time: it, InitialHeight: ih}); err != nil {
 		return f2, exp1, nil, err
 	}
 	exp2 = a2.ExportState(f2.Ctx)
